@@ -1,4 +1,5 @@
 import RSVerif.Lemmas.Backlog
+import RSVerif.Model.Pipe
 /-
 C18 — The backlog ring returns the bytes written at an offset, or says they are gone.
 
@@ -530,4 +531,37 @@ example : ∃ s h, Reach s h ∧ s.live = true ∧ s.rds[0]? = some (Reader.mk 3
 
 example : ∃ s h, Reach s h ∧ s.rds[0]? = some (Reader.mk 15 (.parked 5 15 true)) ∧ h.length = 15 :=
   ⟨_, _, reach_all .mem 4 #[] (by decide) (demoOps.take 24), by decide +kernel, by decide +kernel⟩
+
+/-! ### capacity is the least aligned size -/
+
+/-- **no over-allocation.** `align req unit` is the LEAST positive multiple of `unit` that holds `req` bytes: together with
+    `align_spec` this pins the capacity of a backlog (and hence where offsets wrap) to one value per request. -/
+theorem align_least (req unit m : Nat) (hu : 0 < unit) (hm0 : 0 < m) (hmul : m % unit = 0) (hreq : req ≤ m) :
+    align req unit ≤ m := by
+  have hk : m = m / unit * unit := by
+    have := Nat.div_add_mod m unit; rw [hmul, Nat.mul_comm] at this; omega
+  unfold align
+  split
+  · -- a positive multiple of `unit` is at least `unit`
+    have : 1 ≤ m / unit := by
+      apply Nat.pos_of_ne_zero; intro h0; rw [h0] at hk; omega
+    have := Nat.mul_le_mul_right unit this
+    omega
+  · apply Classical.byContradiction
+    intro hlt
+    have hq : m / unit + 1 ≤ (req + unit - 1) / unit := by
+      apply Classical.byContradiction
+      intro hc
+      have : (req + unit - 1) / unit ≤ m / unit := by omega
+      have := Nat.mul_le_mul_right unit this
+      omega
+    have h1 := Nat.mul_le_mul_right unit hq
+    have h2 := Nat.div_mul_le_self (req + unit - 1) unit
+    rw [Nat.add_mul] at h1
+    omega
+
+/-- the pipe (C09) and the backlog (C18) models size their stores with the same function -/
+theorem align_models_agree : Backlog.align = Pipe.align := rfl
+
+example : align 5000 4096 = 8192 ∧ align 8192 4096 = 8192 ∧ align 0 4096 = 4096 := by decide
 end RSVerif.Properties.C18
